@@ -12,6 +12,8 @@
      last withdrawal  (positive -> 0) the same amounts come back;
      reposition       last withdrawal from the old range (if it had liquidity), range replaced, first deposit into the new;
      reset range      only without liquidity; close: only without liquidity, everything goes to the receiver.
+   Assumptions (true of the harness worlds, see W5 in WpTrace): accounts are created and funded by these rules only - no donations,
+   no pre-funded accounts, closed accounts pay out to wallets, a constant Rent sysvar, no position older than the collection of tick rent.
    A dynamic array needs 112 bytes (R lamports of rent) per INITIALIZED tick; a tick is initialized exactly while some
    position with liquidity is bounded by it.  RentExempt: what an array holds always covers its initialized ticks -
    several positions sharing a tick over-fund it, nobody under-funds it.                                              *)
